@@ -479,6 +479,10 @@ func init() {
 				{Src: "modes/sticky-file", Dst: "/opt/one-sticky-file"},
 				{Src: "modes/all-file", Dst: "/etc/all-bits.conf", Type: "config"},
 				{Src: "modes/sticky-dir", Dst: "/var/tmp/app", Type: "tree"},
+				// the configuration-file flavours through a pattern, a directory and a tree
+				{Src: "etc/conf.d/*.conf", Dst: "/etc/mo.d", Type: "config|missingok"},
+				{Src: "etc/conf.d/", Dst: "/etc/nr.d", Type: "config|noreplace"},
+				{Src: "etc/con*/*.conf", Dst: "/etc/mo2.d/", Type: "config|missingok", Owner: "app"},
 				// an entry that opts into expansion and names a directory as destination (trailing slash)
 				{Src: "bin/app", Dst: "/usr/libexec/app/", Expand: true},
 				{Src: "etc/conf.d/*.conf", Dst: "/etc/expanded.d/", Expand: true, Type: "config"},
